@@ -810,3 +810,90 @@ func c03SubstitutionStopsAtTemplatePart(p *Prog) *RuleResult {
 	r.Floor(1)
 	return r
 }
+
+// ---------------------------------------------------------------------------------------------
+// C03/R16 switch-search-stops-at-unknown-equality.
+//
+// minifySwitchStmt partially evaluates a switch on a primitive literal: it looks for the first case
+// that compares equal and drops the empty cases before it. CheckEqualityIfNoSideEffects answers
+// (equal, known); "not known" (two BigInt literals written in different radixes) is not "not equal".
+// A search that skips a case whose equality is unknown can pick a later case — or the default — and
+// then deletes the case that would really have been taken. Rule: in the search loop, the edge on
+// which the equality is unknown does not lead back to the loop header.
+func c03SwitchSearchUnknown(p *Prog) *RuleResult {
+	r := NewRule("C03/R16 switch-search-stops-at-unknown-equality", "the search for the taken case of a constant switch does not skip a case whose equality with the discriminant is unknown")
+	fn := p.FindFunc("js_parser.(*parser).minifySwitchStmt")
+	if !r.Anchor("js_parser.(*parser).minifySwitchStmt", fn != nil) {
+		return r
+	}
+	loops := naturalLoops(fn)
+	n := 0
+	eachInstr(fn, func(b *ssa.BasicBlock, in ssa.Instruction) {
+		c, ok := in.(*ssa.Call)
+		if !ok || !strings.HasSuffix(calleeFullName(c), "js_ast.CheckEqualityIfNoSideEffects") {
+			return
+		}
+		var header *ssa.BasicBlock
+		var body map[*ssa.BasicBlock]bool
+		for h, bd := range loops {
+			if bd[b] && (body == nil || len(bd) < len(body)) {
+				header, body = h, bd
+			}
+		}
+		if header == nil {
+			return
+		}
+		var okv ssa.Value
+		if c.Referrers() != nil {
+			for _, rf := range *c.Referrers() {
+				if ex, ok := rf.(*ssa.Extract); ok && ex.Index == 1 {
+					okv = ex
+				}
+			}
+		}
+		if okv == nil {
+			return
+		}
+		n++
+		r.Instances++
+		key := fmt.Sprintf("minifySwitchStmt search loop #%d: unknown equality ends the search", n)
+		// the If on ok
+		bad := ""
+		for blk := range body {
+			if len(blk.Instrs) == 0 {
+				continue
+			}
+			ifi, isIf := blk.Instrs[len(blk.Instrs)-1].(*ssa.If)
+			if !isIf {
+				continue
+			}
+			cond := ifi.Cond
+			falseIdx := 1
+			if u, isU := cond.(*ssa.UnOp); isU && u.Op == token.NOT {
+				cond, falseIdx = u.X, 0
+			}
+			if cond != okv {
+				continue
+			}
+			unknown := blk.Succs[falseIdx]
+			// does the unknown edge come back to the header while staying in the loop?
+			if unknown == header {
+				bad = p.Pos(firstPos(blk))
+				continue
+			}
+			if _, back := reachesExitAvoiding(unknown, func(x *ssa.BasicBlock) bool { return x == header }, func(x *ssa.BasicBlock) bool { return !body[x] }, false); back && body[unknown] {
+				bad = p.Pos(firstPos(blk))
+			}
+		}
+		if bad == "" {
+			r.OK(key, true, "the unknown edge leaves the loop")
+		} else {
+			r.Fail(key, p.Pos(c.Pos()), "when the equality of a case with the discriminant is unknown the search simply moves on to the next case: `switch (1n) { case 0x1n: case 2n: a(); break; case 1n: b() }` takes `case 1n`, drops the empty `case 0x1n:` and calls b() where the program calls a()")
+		}
+	})
+	if !r.Anchor("equality tests inside a loop of minifySwitchStmt", n >= 1) {
+		return r
+	}
+	r.Floor(1)
+	return r
+}
